@@ -12,7 +12,7 @@
 """
 import ast
 
-from ..core import AnalysisError, Finding, attr_chain, call_name, dominating_guards, guard_says_not_none, norm, walk_no_nested
+from ..core import canon, AnalysisError, Finding, attr_chain, call_name, dominating_guards, guard_says_not_none, norm, walk_no_nested
 from ..dataflow import ReachingDefs
 
 SC = "commonroad/scenario/scenario.py"
@@ -22,6 +22,16 @@ RP = "commonroad/common/reader/file_reader_protobuf.py"
 REGISTER = ("add_static_obstacle_to_lanelet", "add_dynamic_obstacle_to_lanelet")
 SHAPE_SINKS = ("initial_shape_lanelet_ids", "shape_lanelet_assignment")
 CENTER_SINKS = ("initial_center_lanelet_ids", "center_lanelet_assignment")
+
+
+class _Key(ast.Subscript):
+    """pseudo target `<dict>[key]` of a dict comprehension entry"""
+
+    def __init__(self, text):
+        self.text = text
+        self.value = ast.Name(id="<returned dict>", ctx=ast.Load())
+        self.slice = ast.Name(id=text, ctx=ast.Load())
+        self.ctx = ast.Store()
 
 
 def origins(rd, expr, at, depth=0):
@@ -46,9 +56,13 @@ def origins(rd, expr, at, depth=0):
     return out
 
 
-def time_exprs(mod, fn, rd, o):
+def time_exprs(mod, fn, rd, o, params=()):
     """Time-step expressions of the state(s) a lookup call was made for, each with the guards at its definition."""
     out = []
+
+    def N(e, at=None):
+        return canon(e, rd, at if at is not None else rd.stmt_of(o), params)
+
     a = o.args[0] if o.args else None
     if a is None:
         return out
@@ -56,22 +70,22 @@ def time_exprs(mod, fn, rd, o):
     if isinstance(a, ast.Name):
         srcs = [(d.node, d.stmt) for d in rd.defs(a.id, o) if d.node is not None]
     for s_, at in srcs:
-        g = [(norm(t), pol) for t, pol in dominating_guards(mod, at, stop=fn)] if isinstance(at, ast.stmt) else []
+        g = [(canon(t, rd, at, params), pol) for t, pol in dominating_guards(mod, at, stop=fn)] if isinstance(at, ast.stmt) else []
         if isinstance(s_, ast.Call) and isinstance(s_.func, ast.Attribute) and s_.func.attr == "rotate_translate_local" and s_.args:
-            p = norm(s_.args[0])
+            p = N(s_.args[0], at if isinstance(at, ast.stmt) else None)
             out.append((p[: -len(".position")] + ".time_step" if p.endswith(".position") else "?" + p, g))
         elif isinstance(s_, ast.Attribute) and s_.attr == "shape" and isinstance(s_.value, ast.Call) and s_.value.args:
-            out.append((norm(s_.value.args[0]), g))
+            out.append((N(s_.value.args[0], at if isinstance(at, ast.stmt) else None), g))
         elif isinstance(s_, ast.List) and len(s_.elts) == 1:
             e = s_.elts[0]
             cands = [(e, at)]
             if isinstance(e, ast.Name):
                 cands = [(d.node, d.stmt) for d in rd.defs(e.id, o) if d.node is not None]
             for c, cat in cands:
-                g2 = [(norm(t), pol) for t, pol in dominating_guards(mod, cat, stop=fn)] if isinstance(cat, ast.stmt) else g
-                t = norm(c)
+                g2 = [(canon(t, rd, cat, params), pol) for t, pol in dominating_guards(mod, cat, stop=fn)] if isinstance(cat, ast.stmt) else g
+                t = N(c, cat if isinstance(cat, ast.stmt) else None)
                 if isinstance(c, ast.Attribute) and c.attr == "position" and isinstance(c.value, ast.Call) and norm(c.value.func).endswith("state_at_time_step") and c.value.args:
-                    out.append((norm(c.value.args[0]), g2))
+                    out.append((N(c.value.args[0], cat if isinstance(cat, ast.stmt) else None), g2))
                 elif t.endswith(".position"):
                     out.append((t[: -len(".position")] + ".time_step", g2))
                 else:
@@ -189,6 +203,11 @@ def run(repo, res, tier):
                     shape_vals.append((val, n))
                 elif tn in CENTER_SINKS or (tn == "lanelet_ids_per_state" and "center" in fn.name):
                     center_vals.append((val, n))
+        # `return {key: value for ..}` of a per-time-step assignment function is a store of value under key
+        for n in walk_no_nested(fn):
+            if isinstance(n, ast.Return) and isinstance(n.value, ast.DictComp) and ("shape" in fn.name or "center" in fn.name):
+                fake = ast.Assign(targets=[_Key(canon(n.value.key, rd, n, params))], value=n.value.value, lineno=n.lineno)
+                (shape_vals if "shape" in fn.name else center_vals).append((n.value.value, fake))
         # locals named like the sinks that reach a constructor keyword of the same name count too
         sig = []
         seen_lookups = set()
@@ -205,6 +224,21 @@ def run(repo, res, tier):
             reg_or = origins(rd, loop.iter, loop)
             inst = "%s: registry loop over %s" % (qn, norm(loop.iter))
             if not reg_or:
+                # registration straight from a stored shape assignment is consistent by construction
+                stored = set()
+                for e in [loop.iter] + [lp.iter for lp in ast.walk(fn) if isinstance(lp, ast.For) and any(x is loop for x in ast.walk(lp))]:
+                    for x in ast.walk(e):
+                        if isinstance(x, ast.Attribute) and x.attr.lstrip("_") in SHAPE_SINKS:
+                            stored.add(x.attr.lstrip("_"))
+                    if isinstance(e, ast.Name):
+                        for d in rd.defs(e.id, loop):
+                            if d.node is not None:
+                                for x in ast.walk(d.node):
+                                    if isinstance(x, ast.Attribute) and x.attr.lstrip("_") in SHAPE_SINKS:
+                                        stored.add(x.attr.lstrip("_"))
+                if stored:
+                    res.ok("A1-SAME-SET", inst + " (stored assignment %s)" % sorted(stored))
+                    continue
                 res.bad("A1-SAME-SET", inst, Finding("A1-SAME-SET", mod, loop, inst, "the registered id set does not stem from a lanelet lookup", qualname=qn))
                 continue
             sh_or = []
@@ -283,10 +317,10 @@ def run(repo, res, tier):
                 )
                 sig.append((kind, "ok" if ok else "bad"))
             # registry time step
-            kw = {k.arg: norm(k.value) for k in c.keywords}
+            kw = {k.arg: canon(k.value, rd, rd.stmt_of(c), params) for k in c.keywords}
             if c.func.attr == "add_dynamic_obstacle_to_lanelet":
-                ts = kw.get("time_step") or (norm(c.args[1]) if len(c.args) > 1 else None)
-                tex = [x for o in reg_or for x in time_exprs(mod, fn, rd, o)]
+                ts = kw.get("time_step") or (canon(c.args[1], rd, rd.stmt_of(c), params) if len(c.args) > 1 else None)
+                tex = [x for o in reg_or for x in time_exprs(mod, fn, rd, o, params)]
                 ok = ts is not None and time_matches(ts, tex)
                 res.check("A1-LOOKUP-ARGS", "%s: registry time step %s is the time step of the looked-up state %s" % (qn, ts, sorted({t for t, _g in tex})), ok, mod, c, "%s: add_dynamic_obstacle_to_lanelet(time_step=%s) for lookups at %s" % (qn, ts, sorted({t for t, _g in tex})), "the obstacle is registered under another time step than the one its occupancy was computed for", qualname=qn)
         # per-time-step assignment dictionaries: key = time step of the looked-up state
@@ -294,8 +328,8 @@ def run(repo, res, tier):
             for v, st in vals:
                 if v is None or not isinstance(st, ast.Assign) or not isinstance(st.targets[0], ast.Subscript):
                     continue
-                key = norm(st.targets[0].slice)
-                tex = [x for o in origins(rd, v, st) for x in time_exprs(mod, fn, rd, o)]
+                key = canon(st.targets[0].slice, rd, st, params) if not isinstance(st.targets[0], _Key) else st.targets[0].text
+                tex = [x for o in origins(rd, v, st) for x in time_exprs(mod, fn, rd, o, params)]
                 if not tex:
                     continue
                 res.check("A1-LOOKUP-ARGS", "%s: %s assignment stored under %s for lookups at %s" % (qn, what, key, sorted({t for t, _g in tex})), time_matches(key, tex), mod, st, "%s: %s stored for lookups at %s" % (qn, norm(st.targets[0]), sorted({t for t, _g in tex})), "the %s lanelets of one time step are stored under another time step" % what, qualname=qn)
